@@ -149,7 +149,22 @@ class Job:
                 kw.update(solve_kw)
                 if self.tier == "thorough" and expect == "unsat":
                     kw["want_smt2"] = True
-                r = LW.solve(list(conds) + extra, timeout_s=timeout, **kw)
+                # first a short slice; if z3 has no verdict by then, a quick numeric model search (candidate only, see
+                # below) and then the rest of the budget
+                first = min(timeout, 15)
+                r = LW.solve(list(conds) + extra, timeout_s=first, **kw)
+                if r.verdict == "unknown" and timeout > first:
+                    r2 = None
+                    if expect == "unsat" and replay is not None:
+                        r2 = LW.search_model(list(conds) + extra, seed=self.seed + tried, time_s=5.0)
+                    if r2 is not None and r2.verdict == "sat":
+                        self.solver_s += r.seconds
+                        note = (note + "; " if note else "") + "candidate model from numeric search of the same formula (z3 undecided after 15 s)"
+                        r = r2
+                    else:
+                        spent = r.seconds
+                        r = LW.solve(list(conds) + extra, timeout_s=timeout - first, **kw)
+                        r.seconds += spent
             except T.Unsupported as ex:
                 self.errors.append(f"{name}: unsupported: {ex}")
                 self.record(name, "error", 0.0, bound, str(ex))
@@ -179,6 +194,15 @@ class Job:
                 if expect == "sat":
                     self.errors.append(f"{name}: reachability witness came back unsat (vacuous harness)")
                 return "unsat"
+            if r.verdict == "unknown" and expect == "unsat" and replay is not None:
+                # z3 could not decide.  Before giving up (inconclusive, exit 3) look for a model of the same conditions
+                # numerically with the true exp/ln.  A hit is only a *candidate*: it goes through the replay below like a
+                # solver model and counts only if the real code reproduces it.  A miss changes nothing.
+                r2 = LW.search_model(list(conds) + extra, seed=self.seed + tried)
+                if r2.verdict == "sat":
+                    self.solver_s += r2.seconds
+                    note = (note + "; " if note else "") + f"z3 unknown after {r.seconds:.0f}s; candidate model from numeric search of the same formula"
+                    r = r2
             if r.verdict == "unknown":
                 self.record(name, "unknown", r.seconds, bound, note)
                 if expect == "sat":
@@ -208,6 +232,25 @@ class Job:
                 self._violation(name, r.model, details, finding)
                 return "sat"
             tried += 1
+            if tried == 1 and not r.stats.get("numeric_search_tries"):
+                # the solver's model may satisfy the conditions only under the exp/ln abstraction (e.g. it places a pressure
+                # relative to an abstract bubble point).  Look for a model with the true functions and replay that one.
+                r3 = LW.search_model(list(conds) + extra, seed=self.seed, time_s=8.0)
+                if r3.verdict == "sat":
+                    try:
+                        if isinstance(replay, tuple):
+                            ok3, det3 = replay[0](frac_json(r3.model), **replay[1])
+                            det3 = dict(det3, replayer=replay[0].__name__, replayer_kwargs=replay[1])
+                        else:
+                            ok3, det3 = replay(frac_json(r3.model))
+                            det3 = dict(det3, replayer=getattr(replay, "__name__", "replay"))
+                    except Exception as ex:  # noqa: BLE001
+                        ok3, det3 = False, {"replay_exception": repr(ex)}
+                    if ok3:
+                        self.record(name, "sat", r.seconds + r3.seconds, bound,
+                                    (note + "; " if note else "") + "z3 sat under the exp/ln abstraction; reproducing model found by numeric search of the same formula")
+                        self._violation(name, r3.model, det3, finding)
+                        return "sat"
             if tried > retries:
                 self.errors.append(f"{name}: {tried} counterexamples from the solver did not reproduce on the real "
                                    f"code; last: {frac_json(r.model)} {frac_json(details)}")
